@@ -235,17 +235,26 @@ class NP:
             return _np.full(shape, fill_value, dtype=dtype)
         return self._filled(shape, fill_value)
 
+    @staticmethod
+    def _like(a, out):
+        # subok=True semantics of the real *_like functions: the array subclass (FeArray) is preserved
+        if isinstance(a, _np.ndarray) and type(a) is not _np.ndarray:
+            return out.view(type(a))
+        return out
+
     def zeros_like(self, a, dtype=None, **k):
-        a = _np.asarray(a)
+        a0 = a
+        a = _np.asanyarray(a)
         if a.dtype != object and a.dtype.kind in "iub" and dtype is None:
-            return _np.zeros_like(a)
-        return self._filled(a.shape, 0)
+            return _np.zeros_like(a0)
+        return self._like(a0, self._filled(a.shape, 0))
 
     def ones_like(self, a, dtype=None, **k):
-        a = _np.asarray(a)
+        a0 = a
+        a = _np.asanyarray(a)
         if a.dtype != object and a.dtype.kind in "iub" and dtype is None:
-            return _np.ones_like(a)
-        return self._filled(a.shape, 1)
+            return _np.ones_like(a0)
+        return self._like(a0, self._filled(a.shape, 1))
 
     def empty_like(self, a, dtype=None, **k):
         return self.zeros_like(a, dtype)
@@ -297,6 +306,10 @@ class NP:
             out = _np.empty(arrs[0].shape, dtype=object)
             for idx in _np.ndindex(out.shape):
                 out[idx] = f(*[a[idx] for a in arrs])
+            # keep the array subclass (FeArray) exactly as a real ufunc would
+            for v in (x,) + more:
+                if isinstance(v, _np.ndarray) and type(v) is not _np.ndarray and v.shape == out.shape:
+                    return out.view(type(v))
             return out
         return f(x, *more)
 
